@@ -168,9 +168,11 @@ def run_scenarios(rep, tier, seed, tag, make_scenario, oracle, n_quick, n_thorou
                 for st in scn["steps"]:
                     # root and -sf names are typed by the same route: a root relative to the working directory is resolved
                     # through the PHYSICAL working directory while an absolute -sf name keeps the link (mixing the two is
-                    # outside every property's domain; what the tool does then is noted in DESIGN 10.4)
-                    if (st.get("sf") or st.get("op") == "infosf") and st.get("spell") in ("dot", "rel", "dotrel"):
+                    # outside every property's domain; what the tool does then is noted in DESIGN 10.4): below a link every name is absolute
+                    if st.get("spell") in ("dot", "rel", "dotrel"):
                         st.pop("spell")
+                    for k in ("sf_rel", "pl_rel", "rel_dest"):       # names relative to the (physical) working directory beside names through the link
+                        st.pop(k, None)
             scenarios.append((f"gen{i}", scn))
         for label, scn in scenarios:
             impl_obs, root = world.run_impl(scn, scratch, snap=snap)
